@@ -53,7 +53,9 @@ def extreme_metadata(rng, w):
             elif what == 'future':
                 os.utime(p, (2**33, 2**33 + w.mtime_counter), follow_symlinks=False); w.mtime_counter += 1
             elif what == 'epoch':
-                os.utime(p, (0, 0), follow_symlinks=False)
+                # (second 0 exactly; the sub-second part keeps the (device, inode, mtime) identity fresh, as C01 assumes)
+                w.mtime_counter += 1
+                os.utime(p, ns=(w.mtime_counter, w.mtime_counter), follow_symlinks=False)
         except OSError:
             pass
 
